@@ -477,5 +477,71 @@ def displace (coord : List (List Cell)) (mapped : List (List (Option Rat))) (sig
     List (List (Option Rat)) :=
   zipWith3 (fun rc rm rs => zipWith3 displaceCell rc rm rs) coord mapped sign
 
+/-! ## the displayed mode shape: `Geo1MplPlotter.plot_mode` / `plt_quiver` and
+`Geo2MplPlotter.plot_mode` (additions of the depth round)
+
+Domain: coordinate, direction and sign cells are numbers or NaN (a string is treated as NaN:
+`astype(float)` / the arithmetic of numpy would raise on it); the mode shape has one real
+component per sensor, or a number of components ≥ 2 different from a number of sensors ≥ 2
+(numpy broadcasts a length-1 axis instead of raising; not modelled). -/
+
+/-- one row of `sens_coord[["x", "y", "z"]]`: the cells under the columns labelled `x`, `y`, `z` -/
+def selRow (cols : List String) (row : List Cell) : List Cell :=
+  ["x", "y", "z"].map fun w => ((cols.zip row).lookup w).getD .nan
+
+/-- `sens_coord[["x", "y", "z"]].to_numpy()`: the cells under the columns labelled `x`, `y`,
+    `z`, in that order, row by row (`KeyError` when the frame has no such column) -/
+def selectXYZ (cols : List String) (cells : List (List Cell)) : Except GeoErr (List (List Cell)) :=
+  if !(["x", "y", "z"].all fun w => cols.contains w) then .error .keyError else
+  .ok (cells.map (selRow cols))
+
+/-- one arrow of `plt_quiver(ax, nodes, sens_dir * phi.reshape(-1, 1), scaleF, method="2")`:
+    `Points_f = nodes_coord + directions * scaleF`, drawn from `nodes_coord[k]` to `Points_f[k]` -/
+def arrowTip (base dir : List Cell) (p scaleF : Rat) : List (Option Rat) :=
+  List.zipWith (fun b d => match cellVal b, cellVal d with
+    | some x, some y => some (x + (y * p) * scaleF)
+    | _, _ => none) base dir
+
+/-- `Geo1MplPlotter.plot_mode`: the arrows (start point, end point), one per sensor row.
+    `sens_dir * phi.reshape(-1, 1)` raises `ValueError` when the numbers of rows differ. -/
+def plotMode1 (coordCols : List String) (coord dir : List (List Cell)) (phi : List Rat) (scaleF : Rat) :
+    Except GeoErr (List (List (Option Rat) × List (Option Rat))) :=
+  match selectXYZ coordCols coord with
+  | .error e => .error e
+  | .ok nodes =>
+    if dir.length != phi.length then .error (.valueError .lenMismatch) else
+    .ok (zipWith3 (fun b d p => (b.map cellVal, arrowTip b d p scaleF)) nodes dir phi)
+
+/-- `phi = self.res.Phi[:, mode_nr - 1].real * scaleF` -/
+def scalePhi (phi : List Rat) (scaleF : Rat) : List Rat := phi.map (· * scaleF)
+
+/-- `Geo2MplPlotter.plot_mode`: `newpoints = pts_coord.to_numpy() + dfphi_map_func(phi * scaleF,
+    sens_names, sens_map, cstrn).to_numpy() * sens_sign.to_numpy()` -/
+def plotMode2 (phi : List Rat) (scaleF : Rat) (names : List Name) (pts smap : Tbl) (cstr : Option Tbl)
+    (sign : Tbl) : Except GeoErr (List (List (Option Rat))) :=
+  match mapPhi (scalePhi phi scaleF) names smap cstr with
+  | .error e => .error e
+  | .ok m => .ok (displace pts.cells m sign.cells)
+
+/-- `setup.def_geo1(...)` then `setup.plot_mode_geo1(res, mode_nr, scaleF)`: the arrows drawn -/
+def defPlotGeo1 (nm : NamesArg) (coord : Tbl) (dir : ArrArg) (lines bgNodes bgLines bgSurf : Option ArrArg)
+    (refInd : Option (List (List Nat))) (phi : List Rat) (scaleF : Rat) :
+    Except GeoErr (List (List (Option Rat) × List (Option Rat))) :=
+  match defGeo1 nm coord dir lines bgNodes bgLines bgSurf refInd with
+  | .error e => .error e
+  | .ok g => plotMode1 g.coordCols g.coord g.dir phi scaleF
+
+/-- `setup.def_geo2(...)` then `setup.plot_mode_geo2_mpl(res, mode_nr, scaleF)`: the points drawn
+    (`res_ok[1].astype(float)` on the `None` of an empty points table: `AttributeError`) -/
+def defPlotGeo2 (nm : NamesArg) (pts map : Tbl) (cstr sign lines surf bgNodes bgLines bgSurf : Option ArrArg)
+    (refInd : Option (List (List Nat))) (phi : List Rat) (scaleF : Rat) :
+    Except GeoErr (List (List (Option Rat))) :=
+  match defGeo2 nm pts map cstr sign lines surf bgNodes bgLines bgSurf refInd with
+  | .error e => .error e
+  | .ok g =>
+    match g.pts, g.map, g.sign with
+    | some p, some m, some s => plotMode2 phi scaleF g.names p m g.cstr s
+    | _, _, _ => .error .attributeError
+
 end Geo
 end PV
